@@ -13,7 +13,7 @@ package xsharding
 // Oracle: (a) the shards partition the universe and series equal on the sharding labels share a
 // shard; (b) for every program the analyzer declares shardable and that evaluates without error
 // unsharded, the frontend's merged answer equals the unsharded answer (same label sets, same
-// timestamps, values within 1e-9 relative, NaN == NaN).
+// timestamps, values within 1e-9 relative or 1e-6 absolute, NaN == NaN).
 
 import (
 	"context"
@@ -46,15 +46,6 @@ const sigC44WithoutName = "C44/without-aggregation-keeps-metric-name"
 // although functions and arithmetic between the selector and the aggregation drop the metric name,
 // so series of different metrics that end up in one group hash to different shards.
 const sigC44ByName = "C44/by-metric-name-after-name-drop"
-
-func contains(xs []string, x string) bool {
-	for _, y := range xs {
-		if y == x {
-			return true
-		}
-	}
-	return false
-}
 
 // knownExclusion returns the signature of the known finding the generated program may run into.
 func (env *c44Env) knownExclusion(known map[string]bool, q string, feats []string) string {
